@@ -210,6 +210,14 @@ func checkSpec(o *observation) ([]finding, *analysis) {
 			add(key, "send %d (sender %d #%d, %d bytes) was accepted (nil error) and never received although %s", s.Sid, s.Sender, s.Seq, s.Len, lost)
 		}
 	}
+	if faultFree {
+		for _, s := range o.Sends {
+			if s.Class != "ok" && s.Class != "enqueue" && s.Class != "panic" {
+				add("healthy_no_error:"+mode, "no fault was injected, yet send %d (sender %d #%d, %s) failed: %s", s.Sid, s.Sender, s.Seq, s.Entry, vh.Clip(s.Err, 200))
+				break
+			}
+		}
+	}
 	if !o.Recovered {
 		add("recovers:"+mode+":no-delivery-after-faults", "after the fault script ended, none of %d further packs (handed over more than 20 s) was received (%d connections accepted)", o.Attempts, len(o.Conns))
 	}
